@@ -28,6 +28,11 @@ pub mod bytes {
         #[verifier::external_body]
         pub fn len(&self) -> (r: usize) ensures r == self.data@.len() { unimplemented!() }
         #[verifier::external_body]
+        pub fn split_to(&mut self, at: usize) -> (r: Bytes)
+            requires at <= old(self).data@.len(),      // bytes: panics otherwise
+            ensures r.data@ == old(self).data@.take(at as int), final(self).data@ == old(self).data@.skip(at as int)
+        { unimplemented!() }
+        #[verifier::external_body]
         pub fn take(self, limit: usize) -> (r: buf::Take<Bytes>) ensures r.inner == self, r.limit == limit { unimplemented!() }
     }
     impl ::std::convert::From<Vec<u8>> for Bytes {
